@@ -5,4 +5,9 @@ P="$1"; ID="$2"; TIER="${3:-quick}"
 git -C /repo diff --quiet || { echo "seeded_run: /repo is dirty, refusing" >&2; exit 3; }
 git -C /repo apply "$P" || { echo "seeded_run: patch does not apply" >&2; exit 3; }
 trap 'git -C /repo checkout -- . ; git -C /repo clean -fdq -- . 2>/dev/null' EXIT INT TERM
-/verif/check "$ID" "$TIER" 2>&1 | grep -E "^tlsim: (violation|property=.*exit=|MACHINERY)|^VIOLATION|^KNOWN" | cut -c1-420 | head -8
+O=$(mktemp)
+/verif/check "$ID" "$TIER" > "$O" 2>&1
+grep -E "^tlsim: violation" "$O" | cut -c1-420 | head -4
+grep -E "^VIOLATION|^KNOWN" "$O" | head -2
+grep -E "^tlsim: (property=.*exit=|MACHINERY)" "$O" | cut -c1-300 | tail -2
+rm -f "$O"
